@@ -56,6 +56,11 @@ def handle : Handler
     let (args, rest) ← takeList rest
     if !rest.isEmpty then none
     pure (encList ((pipeline cfg args).map resolve))
+  | "ctxnames" :: rest => do
+    let (ids, rest) ← takeList rest
+    if !rest.isEmpty then none
+    pure (encList (contextNames ids))
+  | ["headident", e] => do let e ← decStr e; pure (encStr (headIdent e))
   | ["resolve", e] => do let e ← decStr e; pure (encStr (resolve e))
   | ["split", e] => do
     let e ← decStr e
